@@ -383,6 +383,13 @@ impl<F: Family> Interp<F> {
     /// Execute one op on the real world(s); writes the op line (before running), the result line
     /// and the dumps of every live world.
     pub fn exec(&mut self, w: usize, op: &Op) -> String {
+        if let Op::Serde { src, rows, e, mutation, .. } = op {
+            // the real serialization (possibly mutated) becomes an explicit `de` op
+            return match crate::serde_ops::build_de::<F>(self, *src, *rows, *e, mutation) {
+                Some(de) => self.exec(w, &de),
+                None => self.exec(w, &Op::Len),
+            };
+        }
         let order = if matches!(op, Op::Clear) { self.clear_order(w) } else { String::new() };
         let line = op.render(w, &order);
         self.line(&line);
@@ -417,7 +424,11 @@ impl<F: Family> Interp<F> {
             }
         }
         for e in take_errors() {
-            let l = format!("X harness case={} oracle=ledger {}", self.case_name, e);
+            let l = if e.starts_with("oracle=") {
+                format!("X harness case={} {}", self.case_name, e)
+            } else {
+                format!("X harness case={} oracle=ledger {}", self.case_name, e)
+            };
             self.line(&l);
         }
         take_drops();
@@ -476,17 +487,17 @@ impl<F: Family> Interp<F> {
                 if self.worlds[*o].is_none() || self.worlds[w].is_none() {
                     return Some("no-world".into());
                 }
-                let r = if *o == w {
+                let (r, rev) = if *o == w {
                     let a = self.worlds[w].as_ref().unwrap();
-                    F::eq(a, a)
+                    (F::eq(a, a), F::eq(a, a))
                 } else {
                     let (a, b) = pair_mut(&mut self.worlds, w, *o);
-                    F::eq(a.as_ref().unwrap(), b.as_ref().unwrap())
+                    (F::eq(a.as_ref().unwrap(), b.as_ref().unwrap()), F::eq(b.as_ref().unwrap(), a.as_ref().unwrap()))
                 };
-                return Some(format!("ok eq={}", r as u8));
+                return Some(format!("ok eq={} rev={}", r as u8, rev as u8));
             }
-            Op::Serde { src, rows, e, front, mutation } => {
-                return crate::serde_ops::exec_serde::<F>(self, w, *src, *rows, *e, front, mutation);
+            Op::Raw(name, args) if name == "de" => {
+                return crate::serde_ops::exec_de::<F>(self, w, args);
             }
             Op::Drop => {
                 if self.worlds[w].is_none() {
@@ -665,8 +676,29 @@ pub fn run_case<F: Family>(it: &mut Interp<F>, name: &str, seed: u64, cfg: &GenC
                 iss[g.rng.below(iss.len() as u64) as usize]
             }
         };
-        let r = g.rng.below(130);
-        let op = if r < 20 {
+        let query_on = cfg.profile.contains("query");
+        let r = if query_on && g.rng.below(100) < 45 { 200 + g.rng.below(100) } else { g.rng.below(130) };
+        let op = if r >= 200 {
+            let r = r - 200;
+            if r < 60 {
+                let qs = F::queries();
+                let q = &qs[g.rng.below(qs.len() as u64) as usize];
+                let has_mut = q.0.split(',').any(|v| v.starts_with('m') || v.starts_with("om"));
+                let mode = match g.rng.below(4) { 0 => "next", 1 => "fold", 2 => "mix1", _ => "mix2" };
+                let e = if has_mut && g.rng.below(2) == 0 { g.epoch().to_string() } else { "-".to_string() };
+                Op::Raw("q".into(), vec![q.0.to_string(), q.1.to_string(), mode.to_string(), e])
+            } else if r < 80 {
+                let qs = F::entryqs();
+                let q = &qs[g.rng.below(qs.len() as u64) as usize];
+                let id = pick_id(&mut g, it);
+                Op::Raw("entryq".into(), vec![fmt_id(id), q.0.to_string(), q.1.to_string()])
+            } else {
+                let qs = F::entries();
+                let q = &qs[g.rng.below(qs.len() as u64) as usize];
+                let id = pick_id(&mut g, it);
+                Op::Raw("entries".into(), vec![q.0.to_string(), q.1.to_string(), q.2.to_string(), fmt_id(id), q.3.to_string(), q.4.to_string()])
+            }
+        } else if r < 20 {
             let shape = pick_shape(&mut g);
             let ids = shape.iter().map(|_| g.val()).collect();
             Op::Insert { shape, ids }
@@ -724,7 +756,8 @@ pub fn run_case<F: Family>(it: &mut Interp<F>, name: &str, seed: u64, cfg: &GenC
         } else if multi && r < 122 {
             let src = g.rng.below(3) as usize;
             if serde_on && it.worlds[src].is_some() && src != w {
-                Op::Serde { src, rows: g.rng.below(2) == 0, e: g.epoch(), front: "tokens".into(), mutation: vec![] }
+                let mutation = if cfg.profile.contains("mutate") && g.rng.below(10) < 8 { vec![format!("seed={}", g.rng.next() % 1_000_000)] } else { vec![] };
+                Op::Serde { src, rows: g.rng.below(2) == 0, e: g.epoch(), front: "tokens".into(), mutation }
             } else {
                 Op::Len
             }
@@ -756,12 +789,22 @@ pub fn run_case<F: Family>(it: &mut Interp<F>, name: &str, seed: u64, cfg: &GenC
             Op::Probe(_) => "probe",
             Op::Len => "len",
             Op::Serde { .. } => "serde",
-            Op::Raw(..) => "raw",
+            Op::Raw(n, _) => match n.as_str() { "q" => "q", "entryq" => "entryq", "entries" => "entries", "parq" => "parq", "res" => "res", "de" => "de", _ => "raw" },
         };
         *it.op_hist.entry(name).or_insert(0) += 1;
         let res = it.exec(w, &op);
         // branch statistics
         match &op {
+            Op::Raw(n, a) if n == "q" => {
+                let nrows = res.split_whitespace().find_map(|t| t.strip_prefix("n=")).and_then(|v| v.parse::<u64>().ok()).unwrap_or(0);
+                it.bump(if nrows == 0 { "q:empty" } else if nrows == 1 { "q:one" } else { "q:many" });
+                it.bump(if a[2] == "fold" { "q:fold" } else { "q:next" });
+                if a[3] != "-" { it.bump("q:write"); }
+            }
+            Op::Raw(n, _) if n == "entryq" || n == "entries" => {
+                let k = format!("{}:{}", n, res.split_whitespace().next().unwrap_or("?"));
+                it.bump(&k);
+            }
             Op::Remove(_) | Op::Add(..) | Op::Del(..) | Op::Write(..) => {
                 let k = format!("{}:{}", name, if res.starts_with("ok drops=") && res.len() > 9 { "drops" } else if res.starts_with("ok") { "ok-nodrop" } else { "none" });
                 it.bump(&k);
